@@ -882,19 +882,47 @@ func RunFlows(c *Ctx, oracles ...flowOracle) {
 			_ = cfg
 		}
 	}
+	// every ordered pair of flows through one proxy (default configuration, caller over UDP and over TCP)
+	for _, a := range flowList {
+		for _, b := range flowList {
+			for _, ci := range []int{0, len(flowCfgs()) / 2} {
+				idx++
+				if !c.Mine(idx) || c.Expired() {
+					continue
+				}
+				name := a.Name + "+" + b.Name
+				for _, v := range runOneFlow(name, ci, oracles...) {
+					// one signature per clause for all pairs: the first failing pair is the replayable case
+					c.Violate("flow|"+v.Clause+"|pairs", "flow-"+v.Clause, v.Detail, map[string]any{"flow": name, "cfg": ci})
+				}
+				c.Res.Evaluations++
+				c.Res.Executions++
+				c.Res.Nontrivial++
+				c.Count("call_flow_pairs_run", 1)
+			}
+		}
+	}
 }
 
+// runOneFlow: name is a flow or "A+B" (flow B run after flow A through the same proxy, with other
+// call identifiers: every flow also starts from the state another flow left behind).
 func runOneFlow(name string, ci int, oracles ...flowOracle) []flowViolation {
 	cfg := flowCfgs()[ci]
-	var fn flowFn
-	for _, fl := range flowList {
-		if fl.Name == name {
-			fn = fl.Fn
+	var fns []flowFn
+	for _, part := range strings.Split(name, "+") {
+		for _, fl := range flowList {
+			if fl.Name == part {
+				fns = append(fns, fl.Fn)
+			}
 		}
 	}
 	f := startFlow(cfg, name)
 	defer f.close()
-	if cr := guard(func() { fn(f, 1) }); cr != "" {
+	if cr := guard(func() {
+		for i, fn := range fns {
+			fn(f, 1+100*i)
+		}
+	}); cr != "" {
 		return []flowViolation{{"health", fmt.Sprintf("flow %s, configuration %s: %s", name, cfg, cr)}}
 	}
 	out := flowHealth(f)
